@@ -168,44 +168,53 @@ def run_shard(args):
                     st.failures.append({"case": case, "violations": new, "part": "enumerated"})
                     if len(st.failures) >= 3:
                         break
-        # generated search
-        strat = mod.strategy(tier) if getattr(mod, "strategy", None) else None
-        if strat is not None and n_examples > 0 and not st.failures:
+        # generated search; a module may define STRATA (a list of stratum keys): the examples are then split
+        # evenly over the strata, each searched by its own Hypothesis run with the stratum fixed - Hypothesis'
+        # example generation is strongly autocorrelated, so drawn "kind" choices do not guarantee coverage
+        strata = getattr(mod, "STRATA", None)
+        plan = list(enumerate(strata)) if strata else [(0, None)]
+        per = n_examples if not strata else max(1, -(-n_examples // len(strata)))
+        if getattr(mod, "strategy", None) and n_examples > 0 and not st.failures:
             import hypothesis
             from hypothesis import HealthCheck, Phase, given, settings
 
-            box = {}
+            for si, stratum in plan:
+                strat = mod.strategy(tier, stratum) if strata else mod.strategy(tier)
+                if strat is None:
+                    continue
+                box = {}
 
-            def body(case):
-                obs = run_case(mod, case)
-                new = st.record(case, obs, "generated", known)
-                if new:
-                    box["case"] = case
-                    box["violations"] = new
-                    raise ViolationFound(new[0][0])
+                def body(case):
+                    obs = run_case(mod, case)
+                    new = st.record(case, obs, "generated", known)
+                    if new:
+                        box["case"] = case
+                        box["violations"] = new
+                        raise ViolationFound(new[0][0])
 
-            test = given(strat)(body)
-            test = settings(
-                max_examples=n_examples,
-                database=None,
-                deadline=None,
-                derandomize=False,
-                report_multiple_bugs=False,
-                print_blob=False,
-                suppress_health_check=[HealthCheck.too_slow, HealthCheck.data_too_large, HealthCheck.large_base_example],
-                phases=[Phase.generate, Phase.shrink],
-            )(test)
-            test = hypothesis.seed(seed * 1000 + shard)(test)
-            try:
-                test()
-            except ViolationFound:
-                st.failures.append({"case": box["case"], "violations": box["violations"], "part": "generated"})
-            except HarnessError:
-                raise
-            except BaseException as exc:  # health check, flaky, ...
-                if "case" in box and type(exc).__name__ in ("Flaky", "FlakyFailure", "FlakyReplay"):
-                    raise HarnessError("flaky case (non-deterministic check): " + canon(box["case"])[:2000])
-                raise HarnessError("".join(traceback.format_exception(type(exc), exc, exc.__traceback__)))
+                test = given(strat)(body)
+                test = settings(
+                    max_examples=per,
+                    database=None,
+                    deadline=None,
+                    derandomize=False,
+                    report_multiple_bugs=False,
+                    print_blob=False,
+                    suppress_health_check=[HealthCheck.too_slow, HealthCheck.data_too_large, HealthCheck.large_base_example],
+                    phases=[Phase.generate, Phase.shrink],
+                )(test)
+                test = hypothesis.seed((seed * 1000 + shard) * 100 + si)(test)
+                try:
+                    test()
+                except ViolationFound:
+                    st.failures.append({"case": box["case"], "violations": box["violations"], "part": "generated"})
+                    break
+                except HarnessError:
+                    raise
+                except BaseException as exc:  # health check, flaky, ...
+                    if "case" in box and type(exc).__name__ in ("Flaky", "FlakyFailure", "FlakyReplay"):
+                        raise HarnessError("flaky case (non-deterministic check): " + canon(box["case"])[:2000])
+                    raise HarnessError("".join(traceback.format_exception(type(exc), exc, exc.__traceback__)))
         extra = getattr(mod, "extra_campaign", None)
         if extra is not None and not st.failures:
             extra(tier, seed, shard, nshards, st, known)
@@ -326,10 +335,17 @@ def cmd_survey(pid, n):
     if enum is not None:
         for i, case in enumerate(enum("quick")):
             consider(case)
-    strat = mod.strategy("quick") if getattr(mod, "strategy", None) else None
-    if strat is not None:
-        test = hypothesis.seed(seed)(
-            settings(max_examples=n, database=None, deadline=None, phases=[Phase.generate], suppress_health_check=list(HealthCheck))(given(strat)(consider))
+    strata = getattr(mod, "STRATA", None)
+    plan = list(enumerate(strata)) if strata else [(0, None)]
+    for si, stratum in plan:
+        if not getattr(mod, "strategy", None):
+            break
+        strat = mod.strategy("quick", stratum) if strata else mod.strategy("quick")
+        if strat is None:
+            continue
+        per = n if not strata else max(1, -(-n // len(strata)))
+        test = hypothesis.seed(seed * 100 + si)(
+            settings(max_examples=per, database=None, deadline=None, phases=[Phase.generate], suppress_health_check=list(HealthCheck))(given(strat)(consider))
         )
         test()
     print(f"survey {pid}: {st.evaluations} cases, {len(st.nontrivial)} distinct non-trivial")
@@ -381,7 +397,7 @@ def cmd_check(pid, tier):
     exhaustive = (has_enum and not failures) if has_enum else None
     extra_assumptions = [
         f"tree under test: {REPO} @ {tree_id()}",
-        f"hypothesis seeds {seed * 1000}..{seed * 1000 + shards - 1}, {n_examples} examples per shard, {shards} shard(s)",
+        f"hypothesis seeds derived from VERIF_SEED={seed}, shard number and stratum; {n_examples} examples per shard, {shards} shard(s)" + (f", split over {len(mod.STRATA)} strata" if getattr(mod, "STRATA", None) else ""),
     ]
     missing = [c for c in getattr(mod, "REQUIRED_CLASSES", []) if not total.classes.get(c)]
     if missing and not failures:
